@@ -697,7 +697,39 @@ func c04Fallback(c *Ctx) {
 		}
 	})
 	if n > 0 {
-		c.Floor("C04.E5-restore-from-snapshot", 1)
+		// state kept behind an atomic pointer is replaced, never edited: what Load hands out may be the very object a
+	// saved "go back to" pointer refers to — writing through it changes the saved state as well, and restoring it
+	// restores nothing
+	{
+		bad := token.NoPos
+		for _, f := range c.Funcs(ipnisyncPkg) {
+			instrsDeep(f.SSA, func(_ *ssa.Function, in ssa.Instruction) {
+				st, ok := in.(*ssa.Store)
+				if !ok {
+					return
+				}
+				fa, isFA := st.Addr.(*ssa.FieldAddr)
+				if !isFA {
+					return
+				}
+				root := fa.X
+				for d := 0; d < 4; d++ {
+					if f2, ok := root.(*ssa.FieldAddr); ok {
+						root = f2.X
+						continue
+					}
+					break
+				}
+				if call, isCall := root.(*ssa.Call); isCall {
+					if callee := call.Call.StaticCallee(); callee != nil && strings.HasPrefix(callee.Name(), "Load") && strings.Contains(callee.String(), "sync/atomic.Pointer") {
+						bad = st.Pos()
+					}
+				}
+			})
+		}
+		c.Check(!bad.IsValid(), "C04.E5-restore-from-snapshot", "ipnisync › atomically published state is copied before it is changed", token.NoPos, "no field is written through a pointer obtained from an atomic Load", "a field is written through the pointer an atomic Load returned (at "+c.pos(bad)+"): the object is shared with whoever loaded it before — a saved copy of the state to go back to is edited along with the live one")
+	}
+	c.Floor("C04.E5-restore-from-snapshot", 1)
 	}
 }
 
